@@ -970,6 +970,16 @@ fn emit_default_glue(out: &mut String, default: bool, sized: bool) {
             "    fn flex_push_default<L: LenShape>(fv: &mut ::flatty::FlexVec<Self, L>) -> Option<Result<(), Error>> {{ Some(fv.push_default().map(|_| ())) }}"
         )
         .unwrap();
+        writeln!(
+            out,
+            "    fn guard_default<'a, B: ::flatty_io::WriteBuffer + 'a>(g: ::flatty_io::blocking::UninitSendGuard<'a, Self, B>) -> Result<Result<::flatty_io::blocking::SendGuard<'a, Self, B>, Error>, ::flatty_io::blocking::UninitSendGuard<'a, Self, B>> {{ Ok(g.default_in_place()) }}"
+        )
+        .unwrap();
+        writeln!(
+            out,
+            "    fn async_guard_default<'a, B: ::flatty_io::AsyncWriteBuffer + 'a>(g: ::flatty_io::async_::UninitSendGuard<'a, Self, B>) -> Result<Result<::flatty_io::async_::SendGuard<'a, Self, B>, Error>, ::flatty_io::async_::UninitSendGuard<'a, Self, B>> {{ Ok(g.default_in_place()) }}"
+        )
+        .unwrap();
     }
 }
 
